@@ -219,6 +219,7 @@ DiffLaws ==
   Start /\ op = "diff" =>
     LET a == a0[1]  b == a0[2]  df == Diff(a, b, lv)  it == InterN(a0, lv) IN
       /\ Contained(df, a)                                   \* items of d1
+      /\ Eq(a, b) => IsEmpty(df)                            \* in particular difference(d, d) = {}
       /\ Eq(UpdRec(it, df), a)                              \* reconstruction, every level
       /\ Unbounded(lv) =>
            /\ IsEmpty(df) <=> Contained(a, b)
